@@ -550,7 +550,68 @@ func (e *emitter) c05IntExpr(t *translator, s *source, rel, goName, lhs, leanNam
 		strings.Join(params, " "), body)
 }
 
+// c05MakeCap translates the capacity argument of the nth `make(chan T, cap)` of goName into
+// `def leanName (free variables… : Int) : Int` (no capacity argument: the constant 0, an unbuffered channel).
+func (e *emitter) c05MakeCap(t *translator, s *source, rel, goName, leanName string, nth int) {
+	fd := s.findFunc(rel, goName)
+	var found []*ast.CallExpr
+	if fd != nil {
+		ast.Inspect(fd.Body, func(n ast.Node) bool {
+			if x, ok := n.(*ast.CallExpr); ok {
+				if id, ok := x.Fun.(*ast.Ident); ok && id.Name == "make" && len(x.Args) >= 1 {
+					if _, ok := x.Args[0].(*ast.ChanType); ok {
+						found = append(found, x)
+					}
+				}
+			}
+			return true
+		})
+	}
+	if nth >= len(found) {
+		e.errors = append(e.errors, fmt.Sprintf("%s (%s) has only %d make(chan) calls, wanted #%d", goName, rel, len(found), nth))
+		e.printf("/-- MISSING: make(chan) #%d of %s -/\ndef %s : Unit := ()\n\n", nth, goName, leanName)
+		return
+	}
+	mk := found[nth]
+	if len(mk.Args) < 2 {
+		e.printf("/-- capacity of `%s` in `%s` (%s): unbuffered -/\ndef %s : Int :=\n  0\n\n", s.src(mk), goName, rel, leanName)
+		return
+	}
+	c := &tctx{t: t, locals: map[string]bool{}, freeSet: map[string]bool{}, boolVars: map[string]bool{}}
+	var body string
+	func() {
+		defer func() {
+			if p := recover(); p != nil {
+				if te, ok := p.(transErr); ok {
+					e.errors = append(e.errors, goName+": "+te.msg)
+					body = ""
+					return
+				}
+				panic(p)
+			}
+		}()
+		body = c.expr(mk.Args[1], false)
+	}()
+	if body == "" {
+		e.printf("/-- TRANSLATION FAILED: capacity of make(chan) #%d of %s -/\ndef %s : Unit := ()\n\n", nth, goName, leanName)
+		return
+	}
+	var params []string
+	for _, f := range c.free {
+		params = append(params, "("+f+" : Int)")
+	}
+	e.printf("/-- capacity of `%s` in `%s` (%s) -/\ndef %s %s : Int :=\n  %s\n\n", s.src(mk), goName, rel, leanName,
+		strings.Join(params, " "), body)
+}
+
 func c05Round5(s *source, e *emitter) {
+	// round 5e: the capacity expression of every limiting channel, translated
+	tk := &translator{registry: map[string]*transFunc{}, consts: map[string]string{}}
+	e.c05MakeCap(tk, s, "core/syncx/limit.go", "NewLimit", "newLimitCap", 0)
+	e.c05MakeCap(tk, s, "core/threading/taskrunner.go", "NewTaskRunner", "newTaskRunnerCap", 0)
+	e.c05MakeCap(tk, s, "core/syncx/cond.go", "NewCond", "newCondCap", 0)
+	e.c05MakeCap(tk, s, "core/mr/mapreduce.go", "executeMappers", "executeMappersCap", 0)
+	e.c05MakeCap(tk, s, "core/fx/stream.go", "Stream.walkLimited", "walkLimitedPoolCap", 1)
 	// round 5c: Cond.WaitWithTimeout's remaining time, Cond.Wait / Signal as effect-free shapes
 	tc := &translator{registry: map[string]*transFunc{}, consts: map[string]string{}}
 	e.c05IntExpr(tc, s, "core/syncx/cond.go", "Cond.WaitWithTimeout", "remainTimeout", "condRemainExpr")
@@ -569,6 +630,10 @@ func c05Round5(s *source, e *emitter) {
 	e.c05Forward(s, "core/threading/workergroup.go", "WorkerGroup.Start", "group.RunSafe", "workerGroupFwd")
 	e.c05Forward(s, "rest/handler/maxconnshandler.go", "MaxConnsHandler", "syncx.NewLimit", "maxConnsNewLimitFwd")
 	e.c05Forward(s, "core/fx/stream.go", "Stream.Walk", "s.walkLimited", "fxWalkLimitedFwd")
+	e.c05Forward(s, "core/fx/stream.go", "Stream.Walk", "buildOptions", "fxWalkFwd")
+	e.c05Forward(s, "core/fx/stream.go", "Stream.Map", "s.Walk", "fxMapFwd")
+	e.c05Forward(s, "core/fx/stream.go", "Stream.Filter", "s.Walk", "fxFilterFwd")
+	e.c05Forward(s, "core/fx/stream.go", "Stream.Parallel", "s.Walk", "fxParallelFwd")
 	e.printf("/-- the property-relevant effect kinds (extracted order-of-effects lists are lists of these) -/\n" +
 		"inductive Eff where\n  | acquire | tryAcquire | release | tryRelease | wgAdd | wgDone | wgWait | user\n  deriving Repr, DecidableEq\n\n")
 	lim := c05EffCfg{chans: []string{"l.pool"}}
